@@ -79,9 +79,9 @@ def unescape : Nat → List Char → Option (List Char)
       | _ => none
     else if c = '$' ∨ c = '%' then
       match rest with
+      | '{' :: _ => none                          -- an interpolation / directive would start here
       | c' :: '{' :: r => if c' = c then (fun t => c :: '{' :: t) <$> unescape fuel r
                           else (c :: ·) <$> unescape fuel rest
-      | '{' :: _ => none                          -- an interpolation / directive would start here
       | _ => (c :: ·) <$> unescape fuel rest
     else if c = '"' ∨ c = '\n' ∨ c = '\r' then none
     else (c :: ·) <$> unescape fuel rest
